@@ -48,7 +48,7 @@ def run(ctx):
         ctx.guard("registration" + tag, c01.registration, ctx, crate, crs, tag)
         ctx.guard("antecedents" + tag, c03.antecedents, ctx, crate, crs, tag)
         import core
-        ctx.guard("core" + tag, core.verdict, ctx, crate, crs, tag)      # see rules/core.py
+        ctx.guard("core" + tag, core.soundness, ctx, crate, crs, tag)      # see rules/core.py
         # the candidate lists the clauses are built from are the provider's (filter flag / map agreement, memoised under the right key)
         import mech
         ctx.guard("candidate-lists" + tag, mech.memo_check, ctx, "candidate-lists", crate, crs, tag)
